@@ -494,10 +494,20 @@ class InstanceWriteProvider(BaseProvider):
                 InstanceName, namespace)
             if multi_ns:
                 multi_ns.append(namespace)
-                instance_name_copy = InstanceName.copy()
+                # Determine the copies of the instance that exist before
+                # deleting any of them, so that the repository is unchanged
+                # if that fails. A copy may be missing in one of the other
+                # namespaces (e.g. if the instance was added with
+                # add_cimobjects()).
+                existing_copies = []
                 for ns in multi_ns:
+                    instance_name_copy = InstanceName.copy()
                     instance_name_copy.namespace = ns
                     instance_store = self.cimrepository.get_instance_store(ns)
+                    if instance_store.object_exists(instance_name_copy):
+                        existing_copies.append(
+                            (instance_store, instance_name_copy))
+                for instance_store, instance_name_copy in existing_copies:
                     instance_store.delete(instance_name_copy)
             else:
                 instance_store = \
